@@ -88,10 +88,13 @@ class LightPlatformDirectFade(LightPlatformInterface, metaclass=abc.ABCMeta):
         else:
             fade_ms = -1
 
+        # a new command always replaces a running software fade
+        if self.task:
+            self.task.cancel()
+            self.task = None
+
         if fade_ms > max_fade_ms:
             # we have to continue the fade later
-            if self.task:
-                self.task.cancel()
             self.task = self.loop.create_task(self._fade(start_brightness, start_time, target_brightness, target_time))
             self.task.add_done_callback(Util.raise_exceptions)
         else:
